@@ -34,6 +34,11 @@ fn null_md() -> MessageDigest {
 
 /// CSRs made by OpenSSL: every key type x digests (pairings rcgen never produces), extensions, odd subjects
 pub fn openssl_csrs(rng: &mut Rng, n: usize) -> Vec<Base> {
+	openssl_csrs_with_keys(rng, n).into_iter().map(|x| x.0).collect()
+}
+
+/// the requests together with the key and digest that signed them (so that mutants can be re-signed)
+pub fn openssl_csrs_with_keys(rng: &mut Rng, n: usize) -> Vec<(Base, PKey<Private>, MessageDigest)> {
 	let mut keys: Vec<(String, PKey<Private>)> = Vec::new();
 	for (name, nid) in [
 		("p256", openssl::nid::Nid::X9_62_PRIME256V1),
@@ -74,6 +79,10 @@ pub fn openssl_csrs(rng: &mut Rng, n: usize) -> Vec<Base> {
 		if variant == 1 {
 			let _ = nb.append_entry_by_text("OU", "a");
 			let _ = nb.append_entry_by_text("OU", "b");
+		}
+		if variant == 3 {
+			// attribute type with an arc that does not fit 64 bits (UUID-based OID)
+			let _ = nb.append_entry_by_text("2.25.329800735698586629295641978511506172918", "uuid");
 		}
 		if variant == 2 {
 			let _ = nb.append_entry_by_text("DC", "example");
@@ -157,10 +166,14 @@ pub fn openssl_csrs(rng: &mut Rng, n: usize) -> Vec<Base> {
 			continue;
 		}
 		if let Ok(der) = b.build().to_der() {
-			out.push(Base {
-				label: format!("openssl:{}:{}:subjvar{}:{}", kn, dn, variant, what.join("+")),
-				der,
-			});
+			out.push((
+				Base {
+					label: format!("openssl:{}:{}:subjvar{}:{}", kn, dn, variant, what.join("+")),
+					der,
+				},
+				key.clone(),
+				md,
+			));
 		}
 	}
 	out
@@ -351,6 +364,44 @@ fn offer(ctx: &Ctx, env: &Env, case: &CaseId, label: &str, der: &[u8]) {
 			),
 		},
 	}
+	// What a request "asks for" is only defined when it is a well-formed RFC 2986 structure: the parser
+	// under test (x509-parser) is lenient about tags and stops silently at malformed RDNs / extensions, so
+	// for requests that are not strictly valid DER only signature soundness and key binding are judged.
+	let strict = {
+		let mut errs = Vec::new();
+		derx::check_canonical(&v.cri, "cri", &mut errs);
+		let attrs_ok = derx::parse_exact(&v.cri, true)
+			.and_then(|t| t.children(true))
+			.map(|k| {
+				k.len() == 4
+					&& k[3].is_ctx(0) && k[3].constructed
+					&& k[3].children(true).map_or(false, |attrs| {
+						// more than one extensionRequest attribute: which one "the request" means is not defined
+						attrs
+							.iter()
+							.filter(|a| a.children(true).map_or(false, |ak| !ak.is_empty() && derx::decode_oid(ak[0].content).ok().as_deref() == Some(x509::OID_EXT_REQ)))
+							.count() <= 1 && attrs.iter().all(|a| {
+							a.is_univ(derx::SEQUENCE)
+								&& a.children(true).map_or(false, |ak| {
+									ak.len() == 2
+										&& ak[0].is_univ(derx::OID) && !ak[0].constructed
+										&& ak[1].is_univ(derx::SET)
+										&& (derx::decode_oid(ak[0].content).ok().as_deref() != Some(x509::OID_EXT_REQ)
+											|| x509::parse_extension_request(ak[1].raw).map_or(false, |exts| {
+												let mut e2 = Vec::new();
+												for e in &exts {
+													x509::check_known_extension(e, &mut e2, "req");
+												}
+												e2.is_empty()
+											}))
+								})
+						})
+					})
+			})
+			.unwrap_or(false);
+		errs.is_empty() && attrs_ok && v.subject.is_some()
+	};
+	ctx.count(if strict { "eval:accepted_strictly_valid_requests" } else { "accepted_malformed_requests_judged_on_signature_and_key_only" });
 	// (2) nothing is asked that rcgen does not carry over
 	let std_ekus: Vec<Vec<u64>> = STD_EKUS.iter().map(|e| e.oid()).collect();
 	let mut req_san = Vec::new();
@@ -358,6 +409,7 @@ fn offer(ctx: &Ctx, env: &Env, case: &CaseId, label: &str, der: &[u8]) {
 	let mut req_eku: Vec<String> = Vec::new();
 	match &v.exts {
 		None => ctx.count("accepted_request_extensions_not_decodable_by_oracle"),
+		Some(_) if !strict => {},
 		Some(exts) => {
 			for e in exts {
 				if e.oid == x509::OID_SAN {
@@ -389,7 +441,8 @@ fn offer(ctx: &Ctx, env: &Env, case: &CaseId, label: &str, der: &[u8]) {
 	// (3) issue and compare
 	let issued = match crate::guard(|| parsed.signed_by(&env.ca, &env.ca_key)) {
 		Err(p) => return ctx.violation("c06:issue-panic", case, &text, &p),
-		Ok(Err(e)) => return ctx.violation("c06:issue-refused", case, &text, &format!("accepted request cannot be issued: {}", e)),
+		// no certificate is issued, so nothing can be wrong with it; noted, not a violation
+		Ok(Err(_)) => return ctx.count("accepted_request_not_issuable"),
 		Ok(Ok(c)) => c,
 	};
 	ctx.count("eval:issued");
@@ -405,12 +458,12 @@ fn offer(ctx: &Ctx, env: &Env, case: &CaseId, label: &str, der: &[u8]) {
 			&format!("certificate SPKI {} request SPKI {}", hex(&cv.spki.raw), hex(&v.spki)),
 		);
 	}
-	if let Some(subj) = &v.subject {
+	if let (Some(subj), true) = (&v.subject, strict) {
 		if name_key(&cv.subject) != name_key(subj) {
 			ctx.violation("c06:issued-subject-differs", case, &text, &format!("certificate {} request {}", name_key(&cv.subject), name_key(subj)));
 		}
 	}
-	if v.exts.is_some() {
+	if v.exts.is_some() && strict {
 		let cext = |oid: &[u64]| cv.exts.iter().flatten().find(|e| e.oid == oid).map(|e| e.value.clone());
 		let got_san: Vec<String> = cext(x509::OID_SAN).and_then(|v| x509::parse_san(&v).ok()).map(|n| n.iter().map(gn_key).collect()).unwrap_or_default();
 		if sorted(got_san.clone()) != sorted(req_san.clone()) {
@@ -472,7 +525,8 @@ pub fn run(ctx: &Ctx, pool: &[PoolKey]) {
 		}
 	}
 	let n_rcgen = bases.len();
-	bases.extend(openssl_csrs(&mut rng, ctx.scale(48, 400) as usize));
+	let signed = openssl_csrs_with_keys(&mut rng, ctx.scale(48, 400) as usize);
+	bases.extend(signed.iter().map(|x| Base { label: x.0.label.clone(), der: x.0.der.clone() }));
 	ctx.note(format!("{} base requests ({} by rcgen, {} by OpenSSL)", bases.len(), n_rcgen, bases.len() - n_rcgen));
 	let donors: Vec<Vec<mutate::Node>> = bases.iter().filter_map(|b| mutate::parse_tree(&b.der, 0)).collect();
 
@@ -539,6 +593,62 @@ pub fn run(ctx: &Ctx, pool: &[PoolKey]) {
 			offer(ctx, &env, &case, &format!("{} mutated by {}", b.label, desc), &m);
 			ctx.distinct(fnv64(&m));
 			ctx.sample(|| format!("mutant: {} mutated by {}", b.label, desc));
+		});
+	}
+	// --- mutants of the to-be-signed part that are RE-SIGNED with the requester's key: validly signed odd requests
+	if ctx.replay.as_ref().map_or(true, |r| r.workload == "resigned") {
+		let n = ctx.scale(12_000, 600_000);
+		par_for(n, ctx.threads, |i| {
+			if let Some(r) = &ctx.replay {
+				if r.index != i {
+					return;
+				}
+			}
+			let case = CaseId::new("resigned", ctx.seed, i);
+			let mut rng = case.rng();
+			let (b, key, md) = &signed[(i % signed.len() as u64) as usize];
+			let parts = match derx::parse_exact(&b.der, true).and_then(|t| t.children(true).map(|k| (k[0].raw.to_vec(), k[1].raw.to_vec()))) {
+				Ok(p) => p,
+				Err(_) => return,
+			};
+			let mut tree = match mutate::parse_tree(&parts.0, 0) {
+				Some(t) => t,
+				None => return,
+			};
+			let mut descs = Vec::new();
+			for _ in 0..1 + rng.below(2) {
+				descs.push(mutate::mutate_tree(&mut rng, &mut tree, &donors));
+			}
+			let cri = mutate::serialise(&tree);
+			if cri == parts.0 {
+				return;
+			}
+			let is_ed = b.label.contains(":ed25519:") || b.label.contains(":ed448:");
+			let sig = if is_ed {
+				openssl::sign::Signer::new_without_digest(key).and_then(|mut s| s.sign_oneshot_to_vec(&cri))
+			} else {
+				openssl::sign::Signer::new(*md, key).and_then(|mut s| {
+					s.update(&cri)?;
+					s.sign_to_vec()
+				})
+			};
+			let sig = match sig {
+				Ok(s) => s,
+				Err(_) => return,
+			};
+			let mut body = cri.clone();
+			body.extend(&parts.1);
+			body.push(0x03);
+			mutate::encode_len(sig.len() + 1, &mut body);
+			body.push(0);
+			body.extend(&sig);
+			let mut der = vec![0x30];
+			mutate::encode_len(body.len(), &mut der);
+			der.extend(body);
+			ctx.count("eval:resigned_mutants");
+			offer(ctx, &env, &case, &format!("{} CRI mutated by {} and re-signed by the requester's key", b.label, descs.join("+")), &der);
+			ctx.distinct(fnv64(&der));
+			ctx.sample(|| format!("resigned: {} CRI mutated by {}", b.label, descs.join("+")));
 		});
 	}
 	// conservation: every offered input was classified
